@@ -328,4 +328,38 @@ def build (Hk : Bytes → Bytes → Nat) (b : Builder) : Except BErr Filter :=
 
 end Builder
 
+/-! ### committed-filter index (blockchain/indexers/cfindex.go: storeFilter, ConnectBlock, DisconnectBlock) -/
+
+structure CfEntry where
+  blockHash : Bytes
+  filter : Bytes        -- NBytes
+  filterHash : Bytes
+  header : Bytes
+  deriving DecidableEq, Repr
+
+abbrev CfIndex := List CfEntry
+
+def zeroHash : Bytes := List.replicate 32 0
+
+def CfIndex.lookup (idx : CfIndex) (h : Bytes) : Option CfEntry := idx.find? (fun e => e.blockHash == h)
+
+/-- `ConnectBlock` (= BuildBasicFilter + storeFilter) inside one database transaction; `none` = the
+    transaction fails (previous filter header missing) and nothing is stored -/
+def CfIndex.connect (Hk : Bytes → Bytes → Nat) (dsha : Bytes → Bytes) (idx : CfIndex)
+    (blockHash prevBlock : Bytes) (outs : List (List Bytes)) (prevs : List Bytes) : Option CfIndex :=
+  match buildBasicFilter Hk blockHash outs prevs with
+  | .error _ => none
+  | .ok f =>
+    let prevHeader : Option Bytes :=
+      if prevBlock == zeroHash then some zeroHash else (idx.lookup prevBlock).map (·.header)
+    match prevHeader with
+    | none => none
+    | some ph =>
+      let e : CfEntry := ⟨blockHash, f.nBytes, filterHash dsha f, makeHeaderForFilter dsha f ph⟩
+      some (e :: idx.filter (fun x => x.blockHash != blockHash))
+
+/-- `DisconnectBlock` -/
+def CfIndex.disconnect (idx : CfIndex) (blockHash : Bytes) : CfIndex :=
+  idx.filter (fun x => x.blockHash != blockHash)
+
 end BV.C20
